@@ -45,10 +45,27 @@ def emit_model_checks(batch: CoqBatch, i: int, N: Names, g, run, obs, log_mode="
     batch.add(i, 101, "Nat.eqb", "res_status $res", c_nat(st))
     batch.add(i, 102, "dictV_eqb", "res_values $res", pdl.c_dictval(N, obs["values"]))
     batch.add(i, 103, "opt_eqb Pos.eqb", "res_err $res", c_opt(obs["error"], c_pos))
+    # interrupts: the model logs every execution of the node, the implementation's log only actual handler calls
+    ints = interrupt_names(g)
+    calls = "$calls"
+    real_log = obs["log"]
+    if ints:
+        calls = f"List.filter (fun c : call => negb (pos_in (fst c) {c_list([c_pos(N(x)) for x in ints])})) $calls"
+        real_log = [c for c in real_log if c[0] not in ints]
     if log_mode == "exact":
-        batch.add(i, 104, "list_eqb call_eqb", "$calls", pdl.c_log(N, obs["log"]))
+        batch.add(i, 104, "list_eqb call_eqb", calls, pdl.c_log(N, real_log))
     else:
-        batch.add(i, 104, "calls_multiset_eqb", "$calls", pdl.c_log(N, obs["log"]))
+        batch.add(i, 104, "calls_multiset_eqb", calls, pdl.c_log(N, real_log))
+
+
+def interrupt_names(g):
+    out = []
+    for n in g["nodes"]:
+        if n["kind"] == "interrupt":
+            out.append(n["name"])
+        elif n["kind"] == "graph":
+            out += interrupt_names(n["graph"])
+    return out
 
 
 def run_cases(ctx, name, cases, extra=None, shard=160, schedules=None, want_model=None):
